@@ -15,6 +15,7 @@ checks = sys.argv[2:] or [pid]
 name = f"{pid}-{'r2' if '/mut2/' in out else ''}{os.path.basename(out)}"
 wt = tempfile.mkdtemp(prefix="seed-", dir="/tmp")
 os.rmdir(wt)
+scratch = tempfile.mkdtemp(prefix="seed-out-", dir="/tmp")
 env = dict(os.environ, PYTHONPATH=wt, PYTHONDONTWRITEBYTECODE="1")
 
 def sh(cmd, **kw):
@@ -37,7 +38,7 @@ try:
         res["demo_patched_rc"] = r.returncode
         res["demo_patched_tail"] = (r.stdout + r.stderr).strip()[-300:]
         for c in checks:
-            e2 = dict(os.environ, VERIF_REPO=wt)
+            e2 = dict(os.environ, VERIF_REPO=wt, VERIF_OUT=scratch)
             r = sh(f"cd /verif && ./check {c} --no-audit", env=e2)
             lines = [l for l in r.stdout.splitlines() if "VIOLATION" in l or "KNOWN" in l or "seed=" in l]
             detail = ""
@@ -45,13 +46,14 @@ try:
                 if "replay=" in l:
                     rp = l.split("replay=")[1].split()[0]
                     try:
-                        d = json.load(open(os.path.join("/verif", rp)))
+                        d = json.load(open(os.path.normpath(os.path.join("/verif", rp))))
                         detail = json.dumps(d.get("violation") or d.get("no_longer_checks"))[:400]
                     except Exception:
                         pass
             res["checks"][c] = {"rc": r.returncode, "lines": lines[:3], "detail": detail}
 finally:
     sh(f"git -C /repo worktree remove --force {wt}; git -C /repo worktree prune")
+    shutil.rmtree(scratch, ignore_errors=True)
 
 confirmed = res.get("applies") and res.get("demo_clean_rc") == 0 and res.get("demo_patched_rc", 0) != 0 and "55 passed" in res.get("suite", "")
 caught = [c for c, v in res["checks"].items() if v["rc"] == 1 and any("VIOLATION" in l for l in v["lines"])]
